@@ -49,16 +49,16 @@ CHECKS["C11"] = dict(level="other", design="3/C11", technique="type facts on the
     text="static_integer/static_number are the documented compositions and every operator result keeps both tags with oracle-sufficient digits; from each public operator the call graph reaches a custom_operator of the overflow tag, from it one of elastic_tag, (for /) the rounding tag's divide, then wide_tag; three-operation chains equal plain arithmetic; narrowing assignments return the (mode-)rounded value inside the declared range and the bound / the right signal outside, for every source value.",
     note="Multi-limb value-level behaviour (C10), rounding direction of / for two free operands (C08) and chains longer than three operations are not decided; neg_inf narrowing lines are undecided (periodic conditions).")
 
-CHECKS["C13"] = dict(level="other", design="3/C13", technique="type facts on to_chars_capacity vs a decimal-length oracle; CFG dominance rule on byte stores, a path rule on value_too_large returns and who-may-call rules over -O1 -fno-inline LLVM IR",
-    text="Capacity of the fixed-size variants is compared with the exact maximum decimal length for integers (8..128 bit) and integral scaled types; every byte store of the integer path and the scaled overload's sign is dominated by a failed comparison of the written pointer with `last`; every return of errc::value_too_large carries ptr == last; the digit-writing internals are called only from the to_chars family and the fixed-capacity entry points reach the buffer only through cnl::to_chars.",
-    note="The layout arithmetic of solve_fixed/solve_scientific/fill (where a silent overrun would have to come from) is a relational fact over run-time integers and is NOT decided; the claim covers the structural necessary conditions listed.")
-CHECKS["C14"] = dict(level="other", design="3/C14", technique="call-graph reachability, forbidden-callee and argument-derivation rules on -O1 -fno-inline LLVM IR of the fixed-capacity output entry points",
-    text="Decides only the property's last sentence: to_string, to_chars_static and operator<< (scaled_integer, 128-bit integers) obtain their text from cnl::to_chars applied to the same value, pass the result's own character array as the buffer, compute the length from the returned pointer, and cannot reach any other number formatter.",
+CHECKS["C13"] = dict(level="other", design="3/C13", technique="type facts on to_chars_capacity vs a decimal-length oracle; CFG dominance rule on byte stores, a path rule on value_too_large returns and who-may-call rules over -O1 -fno-inline LLVM IR; interval-set analysis over the buffer size of the real layout selection (to_chars_positive with fill cut to never-returning declarations) against the real solve_fixed/solve_scientific",
+    text="Capacity of the fixed-size variants is compared with the exact maximum decimal length for integers (8..128 bit) and integral scaled types; every byte store of the integer path and the scaled overload's sign is dominated by a failed comparison of the written pointer with `last`; every return of errc::value_too_large carries ptr == last; the digit-writing internals are called only from the to_chars family and the fixed-capacity entry points reach the buffer only through cnl::to_chars. Layout contract: along lines with the significand length and exponent pinned and the buffer size free (0..4096), the exit the real to_chars_positive takes (fill(scientific), fill(fixed), value_too_large, a failing CNL_ASSERT) is extracted from its IR and compared with what the real solvers return: fill is reached only with a layout it can carry out inside the buffer, value_too_large only when neither layout holds a digit, and with both possible the one with more digits then fewer characters.",
+    note="fill's own copy loops and to_chars_static's digit loop are not analysed: fill's consumption is taken from its CNL_ASSERTs and unconditional writes, to_chars_static<10,int> is modelled by its specification (the decimal text of the exponent). The layout lines cover pinned (digits, exponent) pairs, every buffer size on each.")
+CHECKS["C14"] = dict(level="other", design="3/C14", technique="call-graph reachability, forbidden-callee and argument-derivation rules on -O1 -fno-inline LLVM IR of the fixed-capacity output entry points; template-argument rule on the descale instantiation each to_chars<Rep> calls",
+    text="Decides the property's last sentence and one structural necessary condition of the sign/magnitude clause. Last sentence: to_string, to_chars_static and operator<< (scaled_integer, 128-bit integers) obtain their text from cnl::to_chars applied to the same value, pass the result's own character array as the buffer, compute the length from the returned pointer, and cannot reach any other number formatter. R5: in every cnl::to_chars<Rep,...> instance (20 reps incl. unsigned long long, 128-bit, elastic and wide) the working significand type passed to descale represents every value of Rep (digits and signedness).",
     note="Digit generation, truncation direction and exponent after rescaling are loops over run-time digits and are not decided.")
 
-CHECKS["C15"] = dict(level="other", design="3/C15", technique="IR equivalence of the parser's table functions with their specification, call-site constant extraction from scan_base, and type-level deduction facts",
-    text="Decides the structural part: per-digit scale equals the base, the chunk factor equals base^stride for the stride scan_base itself announces (so a stride/chunk disagreement, invisible to tokens shorter than one chunk, is caught), digit tables are correct on every valid character class and mutual negations, a chunk fits the int64 accumulator, the bit-width estimate is >= log2(base) per digit; digits/signedness/exponent of types deduced from values.",
-    note="That a given token or constant<V> yields exactly its value / used-digit count is NOT decided: it would require evaluating parse/used_digits/trailing_bits on values.")
+CHECKS["C15"] = dict(level="other", design="3/C15", technique="IR equivalence of the parser's table functions with their specification, call-site constant extraction from scan_base, type-level deduction facts, and compile-time witnesses on the types of a stratified sample of user-defined literals",
+    text="Literal witnesses: digits, exponent, radix (all part of the literal's type) and the constant rep of ~375 (quick) _cnl/_cnl2 tokens stratified by base, length, separator placement before/after the radix point and leading/trailing zeros, against exact rational arithmetic on the spelling. Structural part: per-digit scale equals the base, the chunk factor equals base^stride for the stride scan_base itself announces (so a stride/chunk disagreement, invisible to tokens shorter than one chunk, is caught), digit tables are correct on every valid character class and mutual negations, a chunk fits the int64 accumulator, the bit-width estimate is >= log2(base) per digit; digits/signedness/exponent of types deduced from values.",
+    note="That EVERY token or constant<V> yields exactly its value / used-digit count is not decided: the scan/parse loops over characters are not analysed; the literal witnesses settle the sampled spellings only.")
 
 CHECKS["C18"] = dict(level="other", design="3/C18", technique="IR equivalence with the <bit> library functions on a frozen claimed set (both compiler configurations), UB-mode analysis of every utility (interval-set lines for pinned rotation counts, residual traps for free counts), scalar-evolution loop bounds",
     text="For the intrinsic-backed widths (and every width of ispow2/rotl/rotr) the CNL utility and its <bit> counterpart reduce to one normal form for all values, on the Clang configuration and on the GCC configuration (intrinsic specialisations, where llvm.cttz/ctlz zero-poison flags expose an unguarded intrinsic); no utility keeps an out-of-range shift, an invalid builtin argument or a division for any value on any width.",
